@@ -1291,120 +1291,8 @@ func c15r13(rc *core.RC) {
 	}
 }
 
-// ---- C15.R14 the first-win field counter counts distinct fields ----
-
-// Under DecodeFieldPriorityFirstWin the struct decoders stop evaluating members once every field has received its
-// value: a counter is compared with the number of distinct field names and the rest of the object is skipped. That is
-// only right when the counter counts *distinct* fields: it may be incremented only where a field is entered into the
-// set of fields seen, on the branch on which the set did not contain it.
-func c15r14(rc *core.RC) {
-	p := rc.P
-	n := 0
-	for _, fd := range p.Funcs("decoder") {
-		if fd.Body == nil {
-			continue
-		}
-		info := p.Info(fd)
-		// counters compared with fieldUniqueNameNum
-		counters := map[types.Object]bool{}
-		ast.Inspect(fd.Body, func(m ast.Node) bool {
-			be, ok := m.(*ast.BinaryExpr)
-			if !ok {
-				return true
-			}
-			for _, pair := range [][2]ast.Expr{{be.X, be.Y}, {be.Y, be.X}} {
-				if f := core.FieldOf(info, pair[0]); f != nil && f.Name() == "fieldUniqueNameNum" {
-					if o := core.ObjOf(info, pair[1]); o != nil {
-						counters[o] = true
-					}
-				}
-			}
-			return true
-		})
-		if len(counters) == 0 {
-			continue
-		}
-		fn := p.FuncName(fd)
-		rc.Touch(fn)
-		k := 0
-		var visit func(list []ast.Stmt, guard *ast.IfStmt, inElse bool)
-		visit = func(list []ast.Stmt, guard *ast.IfStmt, inElse bool) {
-			for _, st := range list {
-				switch x := st.(type) {
-				case *ast.IncDecStmt:
-					if x.Tok != token.INC || !counters[core.ObjOf(info, x.X)] {
-						continue
-					}
-					k++
-					n++
-					key := fmt.Sprintf("%s/first-win-counter#%d counts-set-insertions", fn, k)
-					// the set insertion in the same list
-					var set types.Object
-					for _, s2 := range list {
-						if as, ok := s2.(*ast.AssignStmt); ok && len(as.Lhs) == 1 {
-							if ix, isIx := core.Unparen(as.Lhs[0]).(*ast.IndexExpr); isIx {
-								if tv, has := info.Types[ix.X]; has {
-									if _, isMap := tv.Type.Underlying().(*types.Map); isMap {
-										set = core.ObjOf(info, ix.X)
-									}
-								}
-							}
-						}
-					}
-					if set == nil {
-						rc.Bad(key, x.Pos(), "the counter compared with fieldUniqueNameNum is incremented in a statement list that does not enter the field into the set of fields seen: a repeated key is counted again, the decoder believes every field has its value and skips the rest of the object ({\"A\":1,\"A\":2,\"B\":3,\"C\":4} into struct{A,B,C int} under DecodeFieldPriorityFirstWin leaves C at 0)")
-						continue
-					}
-					// and the list is the branch of a membership test of that set on which the field is new
-					okGuard := false
-					if guard != nil {
-						testsSet := false
-						var existsVar types.Object
-						if as, ok := guard.Init.(*ast.AssignStmt); ok && len(as.Lhs) == 2 && len(as.Rhs) == 1 {
-							if ix, isIx := core.Unparen(as.Rhs[0]).(*ast.IndexExpr); isIx && core.ObjOf(info, ix.X) == set {
-								testsSet = true
-								existsVar = core.ObjOf(info, as.Lhs[1])
-							}
-						}
-						if testsSet {
-							cond := core.Unparen(guard.Cond)
-							if u, isNot := cond.(*ast.UnaryExpr); isNot && u.Op == token.NOT && core.ObjOf(info, u.X) == existsVar {
-								okGuard = !inElse
-							} else if core.ObjOf(info, cond) == existsVar {
-								okGuard = inElse
-							}
-						}
-					}
-					rc.Check(okGuard, key, x.Pos(), "the counter is incremented where the field is entered into the set of fields seen, on the branch of the membership test on which the field is new")
-				case *ast.IfStmt:
-					visit(x.Body.List, x, false)
-					switch e := x.Else.(type) {
-					case *ast.BlockStmt:
-						visit(e.List, x, true)
-					case *ast.IfStmt:
-						visit([]ast.Stmt{e}, guard, inElse)
-					}
-				case *ast.ForStmt:
-					visit(x.Body.List, nil, false)
-				case *ast.RangeStmt:
-					visit(x.Body.List, nil, false)
-				case *ast.BlockStmt:
-					visit(x.List, guard, inElse)
-				case *ast.SwitchStmt:
-					for _, c := range x.Body.List {
-						visit(c.(*ast.CaseClause).Body, nil, false)
-					}
-				case *ast.LabeledStmt:
-					visit([]ast.Stmt{x.Stmt}, guard, inElse)
-				}
-			}
-		}
-		visit(fd.Body.List, nil, false)
-	}
-	if n < 2 {
-		rc.Unknown("decoder/first-win-counters", token.NoPos, "found %d increments of a counter compared with fieldUniqueNameNum (confirmed: structDecoder.Decode and DecodeStream)", n)
-	}
-}
+// (C15.R14, the first-win field counter counts distinct fields, was retired in round 13: fix for the FirstWin exit
+// removed the counter and the early exit it guarded.)
 
 // ---- C15.R15 a field is always registered under its exact name ----
 
